@@ -203,8 +203,10 @@ func ReadOverwritten() {
 		return
 	}
 	ends := append(append([]int{}, f.starts[1:]...), len(f.orig))
+	mark := vrt.AllocMark()
 	for k := range f.recs {
 		m, next, err := r.Read(int64(f.starts[k]))
+		vrt.Assert(vrt.AllocOK(mark, 128<<20), "allocation size stays within the documented bound")
 		ch := changed(dmg, f.orig, f.starts[k], ends[k])
 		vrt.Assert(vrt.Implies(ch, err != nil), "reading an overwritten record fails")
 		vrt.Assert(vrt.Implies(!ch, err == nil), "reading an untouched record succeeds")
@@ -214,7 +216,13 @@ func ReadOverwritten() {
 		}
 	}
 	msgs, err := r.Consume(int64(f.starts[0]), int64(f.starts[len(f.starts)-1]), int64(len(f.recs)))
+	anyChanged := false
+	for k := range f.recs {
+		anyChanged = vrt.Or(anyChanged, changed(dmg, f.orig, f.starts[k], ends[k]))
+	}
+	vrt.Assert(vrt.Implies(anyChanged, err != nil), "a Consume whose answer would include an overwritten record fails")
 	if err == nil {
+		vrt.Assert(len(msgs) == len(f.recs), "Consume over intact records returns all of them")
 		for i, m := range msgs {
 			vrt.Assert(i < len(f.recs) && sameRec(m, f.recs[i]), "Consume never returns a record that differs from the published one")
 		}
@@ -315,8 +323,10 @@ func DirOverwritten() {
 		return in
 	}
 	// Get of every live offset
+	mark := vrt.AllocMark()
 	for _, r := range live {
 		m, err := lg.Get(r.Off)
+		vrt.Assert(vrt.AllocOK(mark, 128<<20), "allocation size stays within the documented bound")
 		vrt.Assert(vrt.Implies(isBad(r.Off), err != nil), "Get of an overwritten record fails")
 		vrt.Assert(vrt.Implies(!inDamagedSeg(r.Off), err == nil), "Get answered from another segment file is unaffected")
 		if err == nil {
@@ -328,10 +338,28 @@ func DirOverwritten() {
 	for _, r := range live {
 		qs = append(qs, r.Off)
 	}
+	segOf := func(off int64) int {
+		for sj := range l.Segs {
+			for _, r := range l.Segs[sj].Recs {
+				if r.Off == off {
+					return sj
+				}
+			}
+		}
+		return -1
+	}
 	for _, q := range qs {
 		_, msgs, err := lg.Consume(q, 2)
+		i0 := kit.LowerBound(live, q)
+		// the answer would be up to two messages of the segment that holds the first one
+		if i0 < len(live) {
+			would := isBad(live[i0].Off)
+			if i0+1 < len(live) && segOf(live[i0+1].Off) == segOf(live[i0].Off) {
+				would = vrt.Or(would, isBad(live[i0+1].Off))
+			}
+			vrt.Assert(vrt.Implies(would, err != nil), "a Consume whose answer would include an overwritten record fails")
+		}
 		if err == nil {
-			i0 := kit.LowerBound(live, q)
 			for j, m := range msgs {
 				vrt.Assert(i0+j < len(live) && kit.Same(m, live[i0+j]), "Consume never returns a message that differs from the published one")
 				vrt.Assert(!isBad(m.Offset), "Consume never returns an overwritten record")
